@@ -157,8 +157,17 @@ def calls(thorough):
             s = S(st)
             yield "strings.split_on", "strings.ops{str = %s}.split_on{on = %s}" % (s, S(sep)), st.split(sep)
             yield "strings.split-join-law", "lists.str_join{list = strings.ops{str = %s}.split_on{on = %s}, sep = %s}" % (s, S(sep), S(sep)), st
-    for st in ["0", "7", "12", "007", "12a", "1-2", "9é", "42 ", "123456789", "5b5"]:
-        import re as _re
+    import re as _re
+    pool = ["0", "7", "12", "007", "12a", "1-2", "9é", "42 ", "123456789", "5b5"]
+    # every digit-led string of length <= 3 over ASCII digits, a letter, a sign, a blank and
+    # decimal digits of other scripts (the result is the leading run of ASCII digits)
+    alpha = ["1", "0", "9", "a", "-", " ", "\u0663", "\uff14", "\u096b", "é"]
+    for ln in (1, 2, 3):
+        for t in itertools.product(alpha, repeat=ln):
+            st = "".join(t)
+            if st[0] in "109" and st not in pool:
+                pool.append(st)
+    for st in pool:
         yield "strings.parse_int", "strings.ops{str = %s}.parse_int().unwrap()" % S(st), int(_re.match(r"[0-9]+", st).group(0))
     # functional.maybe
     for v in (None, 1):
@@ -272,7 +281,7 @@ def run(ctx):
                 "for slice, pairs of lists of length 0..3 over 2 elements for zip, 3 separators for str_join; every tuple of 0..3 fields over 3 "
                 "names x {1, \"s\", NULL} for fields/values/iter/strip_nulls/has_fields; every string of length 0..%d over {a, b, -, e-acute} for "
                 "len/chars, every index for split_at, every (start, end) for substr, 4 separators for split_on and the split/join law; "
-                "digit-led strings for parse_int; maybe over {NULL, 1} x 6 operations; schema.base_type_of/shaped/any/all over an 11 x 20 "
+                "every digit-led string of length <= 3 over {1, 0, 9, a, -, blank, three non-ASCII decimal digits, é} for parse_int; maybe over {NULL, 1} x 6 operations; schema.base_type_of/shaped/any/all over an 11 x 20 "
                 "shape x value grid x partial. Each call is one let in a built file importing std/*.ucg; all calls distinct." % (
                     4 if thorough else 3, 4 if thorough else 3))
     viol = []
